@@ -163,6 +163,11 @@ func (env *specEnv) eval0(e Expr) SVal {
 					return env.constVal(k)
 				}
 				if g, ok := obj.(*types.Var); ok {
+					if sp := c.eng.pkgs[env.pkg.Path()]; sp != nil {
+						if sg, ok := sp.Members[x.Name].(*ssa.Global); ok && c.eng.immutableGlobal(sg) {
+							return SVal{T: c.globalValue(sg, g.Type()), GoT: g.Type()}
+						}
+					}
 					// package-level variable: value of the global cell
 					name := quote("glob " + env.pkg.Path() + "." + x.Name)
 					c.decl("glob "+name, fmt.Sprintf("(declare-const %s Int)", name))
